@@ -103,6 +103,15 @@ mod header;
 pub(crate) mod parser;
 mod utils;
 
+/// verif hook: access to the crate-private record parsers (compiled only under the Kani compiler).
+#[cfg(kani)]
+pub mod verif_access {
+    pub use super::block::{read_key, read_uint40_be, write_key, write_uint40_be};
+    pub use super::parser::{
+        parse_block_data, parse_block_table, parse_encoding_info, parse_patch_archive,
+    };
+}
+
 pub use block::{FilePatch, PatchArchiveEncodingInfo, PatchBlock, PatchFileEntry};
 pub use builder::PatchArchiveBuilder;
 pub use compression::{
